@@ -56,12 +56,18 @@ func (q *UnsafeQuery) Close() {
 	}
 	q.cursor.archetype = -2
 	q.cursor.table = -2
+	q.cursor.index = 0
+	q.cursor.maxIndex = -1
 	q.tables = nil
 	q.table = nil
 	q.world.unlockSafe(q.lock)
 }
 
 func (q *UnsafeQuery) nextTableOrArchetype() bool {
+	if q.cursor.table < -1 {
+		// Closed or finished: don't advance the cursor (also without the debug build tag).
+		panic("query iteration already finished. Create a new query to iterate again")
+	}
 	if q.cursor.archetype >= 0 && q.nextTable() {
 		return true
 	}
